@@ -20,7 +20,7 @@ type C02Case struct {
 
 const c02Rule = "generator: valid configuration (every switch, allow-all/discrete/wildcard origins, Methods incl. * and lower-case/normalisable spellings, RequestHeaders incl. * and Authorization in several cases/orders) " +
 	"x 6-20 browser intents derived from the configuration (allowed origin 70% / near-miss; safelisted, listed, spelling-variant, unlisted method; random subset of {listed names, authorization, x-unlisted, x-foo}; credentials include/omit; private-network target) " +
-	"x ACRH perturbation in {none, SP after comma, OWS around, one element per line, empty elements, two padded lines}; each intent is run with debug off and on. evaluations = browser runs compared with Permits(cfg,intent). " +
+	"x ACRH perturbation in {none, SP after comma, OWS around, one element per line, empty elements, two padded lines, empty elements with one OWS byte per side (SP / HTAB variants)}; each intent is run with debug off and on. evaluations = browser runs compared with Permits(cfg,intent). " +
 	"non-trivial = intent needs a preflight and its origin is allowed (verdict decided by the method/header/credentials/PNA step), or the verdict is success; distinct by (configuration, intent)."
 
 func genIntent(t *rapid.T, c Cfg, p reqPools) Intent {
@@ -68,7 +68,7 @@ func genIntent(t *rapid.T, c Cfg, p reqPools) Intent {
 		pnaPct = 45
 	}
 	in.PNA = chance(t, "pna", pnaPct)
-	in.Perturb = uniform(t, "perturb", 6)
+	in.Perturb = uniform(t, "perturb", 8)
 	return in
 }
 
@@ -138,7 +138,7 @@ func TestC02(t *testing.T) {
 func TestC02Exhaustive(t *testing.T) {
 	rec := NewRecorder("C02", "exhaustive")
 	rule := "exhaustive product: Credentialed{f,t} x PNA mode{none,PNA,no-cors-only} x 4 origin lists x 9 method lists x 10 request-header lists (invalid combinations skipped) " +
-		"x intents {4 origins x 10 methods x 16 header subsets of {authorization,x-foo,x-bar,content-type} x credentials{omit,include} x PNA{no,yes}} x debug{off,on} x 3 ACRH perturbations; " +
+		"x intents {4 origins x 10 methods x 16 header subsets of {authorization,x-foo,x-bar,content-type} x credentials{omit,include} x PNA{no,yes}} x debug{off,on} x 4 ACRH perturbations; " +
 		"non-trivial as in the rapid part"
 	defer func() { rec.Flush(rule, nil, 0) }()
 	originLists := [][]string{{"*"}, {"https://example.com"}, {"https://*.example.com:*"}, {"https://example.com", "http://localhost:*"}}
@@ -160,7 +160,7 @@ func TestC02Exhaustive(t *testing.T) {
 				}
 				for _, cr := range []bool{false, true} {
 					for _, pn := range []bool{false, true} {
-						for _, pt := range []int{0, 3, 5} {
+						for _, pt := range []int{0, 3, 5, 6} {
 							if len(hs) == 0 && pt != 0 {
 								continue
 							}
